@@ -9,24 +9,29 @@ open Ww.Model.Sched
 
 structure Inv (s : St) : Prop where
   mutex : ∀ p, inCrit (s.procs p).pc = true → s.lock = some p
-  unlocked : ∀ v, s.sess = some v → s.lock = none → v.gen = s.idpCur
-  atReread : ∀ p v, (s.procs p).pc = .reread → s.sess = some v → v.gen = s.idpCur
+  unlocked : ∀ v, s.sess = some v → v.owner = 0 → s.lock = none → v.gen = s.idpCur
+  atReread : ∀ p v, (s.procs p).pc = .reread → s.sess = some v → v.owner = 0 → v.gen = s.idpCur
   atIdp : ∀ p, (s.procs p).pc = .idp → (s.procs p).rt = s.idpCur
   atUpdate : ∀ p, (s.procs p).pc = .update → (s.procs p).newGen = s.idpCur
-  atUnlock : ∀ p v, (s.procs p).pc = .unlock → s.sess = some v → v.gen = s.idpCur
+  atUnlock : ∀ p v, (s.procs p).pc = .unlock → s.sess = some v → v.owner = 0 → v.gen = s.idpCur
   ttl : ∀ v, s.sess = some v → v.hasTtl = true
+  -- a NEW login writes only under the lock (fix 078aa22), so between a refresher's re-read and its write-back the entry can only disappear:
+  cl : s.createLocks = true
+  ownIdp : ∀ p v, (s.procs p).pc = .idp → s.sess = some v → v.owner = 0
+  ownUpdate : ∀ p v, (s.procs p).pc = .update → s.sess = some v → v.owner = 0
+
 
 theorem inv_init (kinds : Pid → Kind) (g0 : Nat) : Inv (init kinds g0) := by
   constructor <;> simp [init, inCrit]
 
-theorem startNext_outside (k : Kind) : startNext k = .del ∨ startNext k = .get := by cases k <;> simp [startNext]
+theorem startNext_outside (k : Kind) : startNext k = .del ∨ startNext k = .get ∨ startNext k = .code := by cases k <;> simp [startNext]
 
 theorem getNext_outside (k : Kind) (se : Option Sess) : (getNext k se).1 = .done ∨ (getNext k se).1 = .del ∨ (getNext k se).1 = .lock := by
   unfold getNext
   cases k <;> cases se <;> simp <;> (try split) <;> simp
 
 theorem inv_step (s : St) (p : Pid) (h : Inv s) : Inv (step s p).1 := by
-  obtain ⟨h1, h2, h3, h4, h5, h6, h7⟩ := h
+  obtain ⟨h1, h2, h3, h4, h5, h6, h7, h8, h9, h10⟩ := h
   unfold step
   simp only []
   split
@@ -35,15 +40,21 @@ theorem inv_step (s : St) (p : Pid) (h : Inv s) : Inv (step s p).1 := by
     generalize startNext (s.procs p).kind = n at this
     constructor <;> grind [setProc, inCrit]
   · -- get
-    have := getNext_outside (s.procs p).kind s.sess
-    generalize getNext (s.procs p).kind s.sess = n at this
+    have := getNext_outside (s.procs p).kind (mine s.sess)
+    generalize getNext (s.procs p).kind (mine s.sess) = n at this
+    constructor <;> grind [setProc, inCrit]
+  · -- code
     constructor <;> grind [setProc, inCrit]
   · -- lock
     split <;> constructor <;> grind [setProc, inCrit]
+  · -- write
+    constructor <;> grind [setProc, inCrit]
   · -- reread
     split
     · constructor <;> grind [setProc, inCrit]
-    · split <;> constructor <;> grind [setProc, inCrit]
+    · rename_i v hv
+      have hm := mine_some hv
+      split <;> constructor <;> grind [setProc, inCrit]
   · -- idp
     split <;> constructor <;> grind [setProc, inCrit]
   · -- update
@@ -53,7 +64,7 @@ theorem inv_step (s : St) (p : Pid) (h : Inv s) : Inv (step s p).1 := by
   · -- del
     constructor <;> grind [setProc, inCrit]
   · -- done
-    exact ⟨h1, h2, h3, h4, h5, h6, h7⟩
+    exact ⟨h1, h2, h3, h4, h5, h6, h7, h8, h9, h10⟩
 
 theorem inv_run (s : St) (ps : List Pid) (h : Inv s) : Inv (ps.foldl (fun s p => (step s p).1) s) := by
   induction ps generalizing s with
@@ -115,16 +126,16 @@ theorem token_presented_once (kinds : Pid → Kind) (g0 : Nat) (ps : List Pid) :
 /-- bookkeeping for "ONE refresh": once a grant was made in a schedule the stored pair is on cooldown (`fresh`) for everyone who looks later -/
 structure OneInv (s : St) : Prop where
   atIdp : ∀ p, (s.procs p).pc = .idp → s.presented = []
-  atReread : ∀ p v, (s.procs p).pc = .reread → s.sess = some v → v.fresh = false → s.presented = []
-  unlocked : ∀ v, s.sess = some v → v.fresh = false → s.lock = none → s.presented = []
-  atUnlock : ∀ p v, (s.procs p).pc = .unlock → s.sess = some v → v.fresh = false → s.presented = []
+  atReread : ∀ p v, (s.procs p).pc = .reread → s.sess = some v → v.owner = 0 → v.fresh = false → s.presented = []
+  unlocked : ∀ v, s.sess = some v → v.owner = 0 → v.fresh = false → s.lock = none → s.presented = []
+  atUnlock : ∀ p v, (s.procs p).pc = .unlock → s.sess = some v → v.owner = 0 → v.fresh = false → s.presented = []
   len : s.presented.length ≤ 1
 
 theorem one_init (kinds : Pid → Kind) (g0 : Nat) : OneInv (init kinds g0) := by
   constructor <;> simp [init]
 
 theorem one_step (s : St) (p : Pid) (h : Inv s) (k : OneInv s) : OneInv (step s p).1 := by
-  obtain ⟨h1, h2, h3, h4, h5, h6, h7⟩ := h
+  obtain ⟨h1, h2, h3, h4, h5, h6, h7, h8, h9, h10⟩ := h
   obtain ⟨k1, k2, k3, k4, k5⟩ := k
   unfold step
   simp only []
@@ -132,13 +143,17 @@ theorem one_step (s : St) (p : Pid) (h : Inv s) (k : OneInv s) : OneInv (step s 
   · have := startNext_outside (s.procs p).kind
     generalize startNext (s.procs p).kind = n at this
     constructor <;> grind [setProc, inCrit]
-  · have := getNext_outside (s.procs p).kind s.sess
-    generalize getNext (s.procs p).kind s.sess = n at this
+  · have := getNext_outside (s.procs p).kind (mine s.sess)
+    generalize getNext (s.procs p).kind (mine s.sess) = n at this
     constructor <;> grind [setProc, inCrit]
+  · constructor <;> grind [setProc, inCrit]
   · split <;> constructor <;> grind [setProc, inCrit]
+  · constructor <;> grind [setProc, inCrit]
   · split
     · constructor <;> grind [setProc, inCrit]
-    · split <;> constructor <;> grind [setProc, inCrit]
+    · rename_i v hv
+      have hm := mine_some hv
+      split <;> constructor <;> grind [setProc, inCrit]
   · -- idp: the only step that presents a token; nothing was presented before (k1), and mutual exclusion keeps everybody else out
     rename_i hpc
     have hp0 := k1 p hpc
@@ -171,11 +186,11 @@ theorem every_grant_succeeds (s : St) (p : Pid) (h : Inv s) (hpc : (s.procs p).p
     the critical section -/
 theorem stored_pair_is_current (kinds : Pid → Kind) (g0 : Nat) (ps : List Pid) :
     let s := ps.foldl (fun s p => (step s p).1) (init kinds g0)
-    ∀ v, s.sess = some v → s.lock = none → v.gen = s.idpCur :=
-  fun v hv hl => (inv_run _ ps (inv_init kinds g0)).unlocked v hv hl
+    ∀ v, s.sess = some v → v.owner = 0 → s.lock = none → v.gen = s.idpCur :=
+  fun v hv ho hl => (inv_run _ ps (inv_init kinds g0)).unlocked v hv ho hl
 
 -- non-vacuity: two refreshers and a proxied request interleaved; exactly one grant
 example : let s := [0, 1, 2, 0, 1, 0, 1, 2, 0, 0, 1, 2, 0, 1, 1, 2, 2, 2, 0, 1, 2, 0, 1, 2, 0, 1, 2, 2, 2, 2].foldl (fun s p => (step s p).1) (init (fun p => if p = 2 then .proxy else .refresh) 0)
-    s.presented = [0] ∧ s.sess = some ⟨1, true, true⟩ ∧ s.lock = none ∧ (s.procs 0).status = 200 ∧ (s.procs 1).status = 200 ∧ (s.procs 2).status = 200 := by decide
+    s.presented = [0] ∧ s.sess = some ⟨1, true, true, 0⟩ ∧ s.lock = none ∧ (s.procs 0).status = 200 ∧ (s.procs 1).status = 200 ∧ (s.procs 2).status = 200 := by decide
 
 end Ww.Proofs.C07
